@@ -60,6 +60,8 @@ Definition segment_emit (pc len : Z) : site Z :=
   if negb emit_end_checked && (two64 <=? pc + len) then SPanic
   else if (65535 <? pc) || (65536 <? pc + len) then SDiag diag_segment_out_of_range
   else SOk (pc + len).
+(* SourceMap::add: `pc.as_usize()..(pc.as_usize() + len)` with the *target* pc, before Segment::emit *)
+Definition source_map_add (tpc len : Z) : site unit := if two64 <=? tpc + len then SPanic else SOk tt.
 (* target_offset = target_address.as_i64() - initial_pc.as_i64(); target_pc = (pc.as_i64() + offset) as usize *)
 Definition target_pc (pc initial target : Z) : site Z :=
   let off := usize_as_i64 target - usize_as_i64 initial in
@@ -108,7 +110,11 @@ Definition stmt_pc_then_byte (en : env) (initial target : Z) (e : expr) : stmt_r
       let pc := pc_from_i64 v in
       match target_pc pc initial target with
       | SPanic => RPanic | SDiag d => RDiag d
-      | SOk _ => match segment_emit pc 1 with SPanic => RPanic | SDiag d => RDiag d | SOk p => REmitted p end
+      | SOk t =>
+          match source_map_add t 1 with
+          | SPanic => RPanic | SDiag d => RDiag d
+          | SOk _ => match segment_emit pc 1 with SPanic => RPanic | SDiag d => RDiag d | SOk p => REmitted p end
+          end
       end
   end.
 
@@ -147,10 +153,24 @@ Definition macro_depth (g : list (list nat)) : depth :=
 Definition dummy_present_after_nested : bool := dummy_segment_restored.
 Definition emit_after_nested_dummy : site unit := if dummy_present_after_nested then SOk tt else SPanic.   (* get_mut(name).unwrap() *)
 
+(* ---- `.define bank { size = .. fill = .. }` and BinaryWriter::merge_segments: bytes allocated for the padding ---- *)
+Definition diag_bank_size_negative : nat := 6%nat.
+Definition diag_bank_size_mismatch : nat := 7%nat.
+Definition bank_padding (size len : Z) (has_fill : bool) : site Z :=
+  if size <? 0 then SDiag diag_bank_size_negative
+  else if len <? size then (if has_fill then SOk (size - len) else SDiag diag_bank_size_mismatch)
+  else if size <? len then SDiag diag_bank_size_mismatch
+  else SOk 0.
+
 (* ---- Known_* classes: the inputs on which the current source still violates C06 ---- *)
 Definition huge_loop_threshold : Z := 1048576.
 Definition Known_loop_count_huge (count : Z) : bool := huge_loop_threshold <? count.
-Definition Known_pc_out_of_range (pc : Z) : bool := negb ((0 <=? pc) && (pc <? 4611686018427387904)).   (* 2^62 *)
+Definition pc_insane (pc : Z) : bool := negb ((0 <=? pc) && (pc <? 4611686018427387904)).   (* outside 0..2^62 *)
+(* pc of the current segment (after `* =`), its start (initial_pc) and its `pc` option (target_address), as usize values:
+   one of them is outside 0..2^62, or the relocated pc  pc + (target - initial)  is negative *)
+Definition Known_pc_out_of_range (pc initial target : Z) : bool :=
+  pc_insane pc || pc_insane initial || pc_insane target || (pc + (target - initial) <? 0).
+Definition Known_bank_size_huge (size : Z) : bool := 1073741824 <? size.        (* more than 2^30 bytes of padding in memory *)
 Definition Known_macro_recursion (g : list (list nat)) : bool := cyclic_from g 0%nat.
 (* brace / parenthesis nesting of a text: recursion depth of the recursive-descent parser, codegen and formatter *)
 Fixpoint nesting_depth (cur best : nat) (s : list N) : nat :=
